@@ -110,54 +110,118 @@ def rule_Q2(ctx):
     ctx.ob("Q2", holder or loop, "a line is the start of the next track exactly when the TRACK regex matches it; it is then pushed back and the loop ends", ok, det, inst="next-track")
     first = [a for a in own_nodes(tp) if isinstance(a, ast.Assign) and norm(a.value) == "_TRACK_LINE_REGEX.match(text)" and not any(n is a for n in ast.walk(loop))]
     ctx.ob("Q2", tp, "the track header itself is recognised by the same TRACK regex", len(first) == 1, "", inst="first-track")
+    # ---- per iteration path, on value-flow terms: which regex matched decides what happens to the line
+    def match_truth(pr, regex):
+        """(truth, text term key) of the test `regex.match(<text>)` on the path (last one wins), or None"""
+        out = None
+        for c, t, _ in pr.conds:
+            neg, x = False, c
+            while x.startswith("not(") and x.endswith(")"):
+                x, neg = x[4:-1], not neg
+            for pre, pol in ((f"truthy({regex}.match(", True), (f"Is({regex}.match(", False), (f"IsNot({regex}.match(", True)):
+                if x.startswith(pre):
+                    arg = x[len(pre):]
+                    arg = arg[:arg.rindex("))")] if pre.startswith("truthy") else arg[:arg.rindex("),None)")]
+                    out = ((t != neg) == pol, arg)
+        return out
+
     n_back = 0
-    fall = False
+    seen = {"index": 0, "title": 0, "unknown": 0}
+    ok_index = ok_title = ok_unknown = True
+    det_index = det_title = det_unknown = ""
     for kind, path, edge in cfg.iteration_paths(lp):
+        if kind != "back":
+            continue
         pr = _walk(ctx, tp, cfg, path)
-        stm = [norm(s.ast) for s in pr.steps if s.kind == "stmt"]
-        if kind == "back":
-            n_back += 1
-            if "track.unparsed.append(text)" in stm:
-                fall = True
-    ctx.ob("Q2", loop, "an unrecognised line inside a track is recorded and skipped (the loop continues)", fall, "" if fall else "no continuing path stores the unknown line", inst="unknown-line-continues")
-    body = full(loop)
-    ok = "_INDEX_LINE_REGEX.match(text)" in body and "_TITLE_LINE_REGEX.match(text)" in body
-    ctx.ob("Q2", loop, "INDEX and TITLE lines are recognised inside a track", ok, "", inst="index-title")
-    ci = [c for c in ast.walk(loop) if isinstance(c, ast.Call) and norm(c.func) == "CueSheetIndex"]
-    ok = len(ci) == 1 and [norm(a) for a in ci[0].args] == ["index_number", "n_minutes", "n_seconds", "n_frames"]
-    asg = {norm(a.targets[0]): norm(a.value) for a in ast.walk(loop) if isinstance(a, ast.Assign) and len(a.targets) == 1}
-    ok = ok and asg.get("index_number") == "int(result.groups()[0])" and asg.get("n_minutes") == "int(result.groups()[1])" \
-        and asg.get("n_seconds") == "int(result.groups()[2])" and asg.get("n_frames") == "int(result.groups()[3])"
-    ctx.ob("Q2", loop, "INDEX fields: number, minutes, seconds, frames from groups 1..4 in that order", ok, "", inst="index-fields")
+        n_back += 1
+        mi, mt = match_truth(pr, "_INDEX_LINE_REGEX"), match_truth(pr, "_TITLE_LINE_REGEX")
+        appends = [(c, e) for c, e, st in calls_on(pr) if isinstance(c.func, ast.Attribute) and c.func.attr == "append"]
+        app = [(evaluator(ctx, tp, e).ev(c.func.value).key().replace("~", ""), evaluator(ctx, tp, e).ev(c.args[0]).key().replace("~", "") if c.args else "?") for c, e in appends]
+        mi = (mi[0], mi[1].replace("~", "")) if mi is not None else None
+        mt = (mt[0], mt[1].replace("~", "")) if mt is not None else None
+        title_now = pr.env.get("track.title")
+        title_set = any(s_.kind == "stmt" and isinstance(s_.ast, ast.Assign) and any(dotted(x) == "track.title" for t_ in s_.ast.targets for x in ([t_] if not isinstance(t_, (ast.Tuple, ast.List)) else t_.elts))
+                        for s_ in pr.steps)
+        if mi is not None and mi[0]:
+            seen["index"] += 1
+            M = f"(_INDEX_LINE_REGEX.match({mi[1]})).groups()"
+            want = ("track.indices", "CueSheetIndex(" + ",".join(f"int(sub({M},{i}))" for i in range(4)) + ")")
+            if app != [want] or title_set:
+                ok_index, det_index = False, f"on an INDEX line the path does {app}"
+        elif mt is not None and mt[0]:
+            seen["title"] += 1
+            M = f"(_TITLE_LINE_REGEX.match({mt[1]})).groups()"
+            if app or title_now is None or title_now.key().replace("~", "") != f"sub({M},0)":
+                ok_title, det_title = False, f"on a TITLE line track.title = {title_now.key() if title_now is not None else None}, appends {app}"
+            if mi is None or mi[1] != mt[1]:
+                ok_title, det_title = False, "the TITLE test is not made on the same line after the INDEX test failed"
+        elif mi is not None and mt is not None:
+            seen["unknown"] += 1
+            if app != [("track.unparsed", mi[1])] or title_set:
+                ok_unknown, det_unknown = False, f"an unrecognised line does {app}"
+    ctx.ob("Q2", loop, "an unrecognised line inside a track is recorded and skipped (the loop continues)", ok_unknown and seen["unknown"] >= 1,
+           det_unknown or ("" if seen["unknown"] else "no continuing path stores the unknown line"), inst="unknown-line-continues")
+    ctx.ob("Q2", loop, "INDEX and TITLE lines are recognised inside a track", seen["index"] >= 1 and seen["title"] >= 1, f"{seen}", inst="index-title")
+    ctx.ob("Q2", loop, "INDEX fields: number, minutes, seconds, frames from groups 1..4 in that order", ok_index and seen["index"] >= 1, det_index, inst="index-fields")
     icls = ctx.prog.klass(CS, "CueSheetIndex", "Q2")
     ok = [f[0] for f in ctx.prog.dataclass_fields(icls)] == ["number", "n_minutes", "n_seconds", "n_frames"]
     ctx.ob("Q2", icls, "CueSheetIndex field order: number, minutes, seconds, frames", ok, "", inst="index-class")
-    tt = [a for a in ast.walk(loop) if isinstance(a, ast.Assign) and norm(a.targets[0]) == "track.title"]
-    ok = "track.indices.append(index)" in body and len(tt) == 1 and canon_expr(tp, tt[0].value) in ("result.groups()[0]", "result.group(1)")
-    if ok:
-        # the title assignment is guarded by the TITLE regex match
-        t = tt[0]
-        guard = None
-        while t is not None and t is not loop:
-            par = getattr(t, "_parent", None)
-            if isinstance(par, ast.If) and any(n is tt[0] for b in par.body for n in ast.walk(b)):
-                guard = par
-                break
-            t = par
-        prev = [a for a in ast.walk(loop) if isinstance(a, ast.Assign) and norm(a.targets[0]) == "result" and a.lineno < tt[0].lineno]
-        ok = guard is not None and prev and norm(max(prev, key=lambda a: a.lineno).value) == "_TITLE_LINE_REGEX.match(text)"
-    ctx.ob("Q2", loop, "every INDEX is appended in order; TITLE is the quoted group of the TITLE line", ok, "", inst="index-append")
-    hdr = {norm(a.targets[0]): norm(a.value) for a in own_nodes(tp) if isinstance(a, ast.Assign) and len(a.targets) == 1 and not any(n is a for n in ast.walk(loop))}
-    ok = hdr.get("track_number") == "int(result.groups()[0])" and hdr.get("track_mode") == "result.groups()[1]" and hdr.get("track") == "CueSheetTrack(track_number, track_mode)"
-    ctx.ob("Q2", tp, "track number and mode come from the TRACK line's groups", ok, "", inst="track-header")
+    ctx.ob("Q2", loop, "every INDEX is appended in order; TITLE is the quoted group of the TITLE line", ok_index and ok_title and seen["title"] >= 1, det_title or det_index,
+           inst="index-append")
+    # the track object is built from the TRACK line's groups
+    okh, deth = False, "CueSheetTrack(...) construction not found before the loop"
+    for p in run_paths(ctx, tp, rule="Q2", limit=4000):
+        for c, e, st in calls_on(p, name="CueSheetTrack"):
+            k = evaluator(ctx, tp, e).ev(c).key().replace("~", "")
+            mtr = match_truth(p, "_TRACK_LINE_REGEX")
+            T = mtr[1].replace("~", "") if mtr is not None and mtr[0] else None
+            if T is not None:
+                M = f"(_TRACK_LINE_REGEX.match({T})).groups()"
+                okh = k == f"CueSheetTrack(int(sub({M},0)),sub({M},1))"
+                deth = "" if okh else f"track built as `{k[:160]}`"
+    ctx.ob("Q2", tp, "track number and mode come from the TRACK line's groups", okh, deth, inst="track-header")
     tcls = ctx.prog.klass(CS, "CueSheetTrack", "Q2")
     ok = [f[0] for f in ctx.prog.dataclass_fields(tcls)][:2] == ["number", "mode"]
     ctx.ob("Q2", tcls, "CueSheetTrack(number, mode, ...)", ok, "", inst="track-class")
     # file adapter and top level
     fp = ctx.fn(CS, "CueSheetFileAdapter.parse", "Q2")
-    t = full(fp)
-    ok = "_FILE_LINE_REGEX.match(text)" in t and "bin_file_name = result.groups()[0]" in t and "CueSheetTrackAdapter.parse(lines)" in t and "cue_sheet.tracks.append(track)" in t
-    ctx.ob("Q2", fp, "FILE: bin name from the quoted group; tracks appended in order", ok, "", inst="file-adapter")
+    okf, detf = False, "no returning path found"
+    n_ret = 0
+    for p in run_paths(ctx, fp, rule="Q2", limit=4000):
+        if p.end != "return":
+            continue
+        n_ret += 1
+        keys = [evaluator(ctx, fp, e).ev(c).key() for c, e, st in calls_on(p, name="CueSheetFile")]
+        import re as _re
+        good = [k for k in keys if _re.fullmatch(r"CueSheetFile\(sub\(\((?:ite\(.+,)?_FILE_LINE_REGEX\.match\(.+\)(?:,None\))?\)\.groups\(\),0\)\)", k)]
+        if len(keys) != 1 or not good:
+            okf, detf = False, f"file object built as {keys}"
+            break
+        okf = True
+    fcfg = ctx.cfg(fp, "Q2")
+    fl = [w for w in own_nodes(fp) if isinstance(w, ast.While)]
+    if okf and len(fl) == 1:
+        flp = fcfg.loop_of(fl[0])
+        n_tr = 0
+        for kind, path, edge in fcfg.iteration_paths(flp):
+            if kind != "back":
+                continue
+            pr = _walk(ctx, fp, fcfg, path)
+            parses = [(c, e) for c, e, st in calls_on(pr) if norm(c.func) == "CueSheetTrackAdapter.parse"]
+            apps = [(c, e) for c, e, st in calls_on(pr) if isinstance(c.func, ast.Attribute) and c.func.attr == "append"]
+            if len(parses) != 1:
+                okf, detf = False, "a continuing path does not hand the lines to the track parser exactly once"
+                continue
+            n_tr += 1
+            tk = evaluator(ctx, fp, parses[0][1]).ev(parses[0][0]).key()
+            for c, e in apps:
+                ev_ = evaluator(ctx, fp, e)
+                if not ev_.ev(c.func.value).key().endswith(".tracks") or ev_.ev(c.args[0]).key() != f"sub({tk},0)":
+                    okf, detf = False, f"`{norm(c)}` does not append the parsed track to the file's track list"
+        okf = okf and n_tr >= 1
+    elif okf:
+        okf, detf = False, "track loop not found"
+    ctx.ob("Q2", fp, "FILE: bin name from the quoted group; tracks appended in order", okf, detf, inst="file-adapter")
     pc = ctx.fn(CS, "parse_cue_sheet", "Q2")
     pcfg = ctx.cfg(pc, "Q2")
     wl = [w for w in own_nodes(pc) if isinstance(w, ast.While)]
